@@ -9,6 +9,7 @@ import (
 	"sort"
 	"strconv"
 	"strings"
+	"sync"
 	"time"
 
 	"github.com/deckhouse/deckhouse/pkg/log"
@@ -23,6 +24,7 @@ import (
 	metricstorage "github.com/flant/shell-operator/pkg/metric_storage"
 	shell_operator "github.com/flant/shell-operator/pkg/shell-operator"
 	"github.com/flant/shell-operator/pkg/task/queue"
+	"github.com/flant/shell-operator/pkg/utils/verifsched"
 )
 
 // Whole-operator exploration for C01 (uncontrolled scheduling, real informers on the fake cluster,
@@ -45,6 +47,20 @@ type c01OpCfg struct {
 	jq       bool
 	types    []string // a m d
 	failSync int      // the Synchronization run fails this many times first
+	// park: the cluster changes INSIDE the snapshot reads of one Synchronization run (quantifier item
+	// (b): "snapshot reads by the Synchronization run itself"): the run's goroutine is parked at the
+	// k-th yield point it reaches in monitor.Snapshot() (snapshot.read before an informer is read,
+	// snapshot.sort after the last one) during attempt `attempt`, the changes are applied and cached
+	// by the informer, then the run goes on.
+	park *c01SnapPark
+	// quiet: nothing is created after the history (no sentinel): what the hook got must be complete
+	// by itself — a later unrelated event would refresh the snapshots of a group and hide a loss.
+	quiet bool
+}
+
+type c01SnapPark struct {
+	attempt, k int
+	evs        []c01Ev
 }
 
 const c01HookScript = `#!/bin/bash
@@ -250,6 +266,69 @@ func c01OpRun(c *Case, rng *Rng, cfg c01OpCfg, initial, duringSync [][]c01Ev, af
 		c.Inconcl = "operator assembly failed: " + err.Error()
 		return
 	}
+	// controlled window inside the Synchronization run's snapshot reads
+	var parkMu sync.Mutex
+	armed, parkCount := false, 0
+	counting, readsInRun := false, 0 // Snapshot() calls of the run the window is in
+	parkedCh := make(chan *verifsched.Arrival, 1)
+	arm := func(on bool) {
+		parkMu.Lock()
+		armed, parkCount = on, 0
+		counting = on
+		parkMu.Unlock()
+	}
+	if cfg.park != nil {
+		hk0 := op.HookManager.GetHook("hook.sh")
+		if hk0 == nil || len(hk0.GetConfig().OnKubernetesEvents) == 0 {
+			c.Inconcl = "hook not loaded"
+			return
+		}
+		key := "snapshot/" + hk0.GetConfig().OnKubernetesEvents[0].Monitor.Metadata.MonitorId
+		raw := sched.Subscribe(key)
+		stopFwd := make(chan struct{})
+		defer func() {
+			sched.Unsubscribe(key)
+			close(stopFwd)
+		}()
+		go func() {
+			for {
+				select {
+				case a := <-raw:
+					parkMu.Lock()
+					hold := armed && parkCount == cfg.park.k
+					if armed {
+						parkCount++
+					}
+					if hold {
+						armed = false
+					}
+					if counting && a.Name == "snapshot.sort" {
+						readsInRun++
+					}
+					parkMu.Unlock()
+					if hold {
+						parkedCh <- a
+					} else {
+						a.Release()
+					}
+				case <-stopFwd:
+					for {
+						select {
+						case a := <-raw:
+							a.Release()
+						case a := <-parkedCh:
+							a.Release()
+						case <-time.After(50 * time.Millisecond):
+							return
+						}
+					}
+				}
+			}
+		}()
+		if cfg.park.attempt == 1 {
+			arm(true)
+		}
+	}
 	op.VerifStart()
 	defer func() {
 		op.KubeEventsManager.PauseHandleEvents()
@@ -261,9 +340,55 @@ func c01OpRun(c *Case, rng *Rng, cfg c01OpCfg, initial, duringSync [][]c01Ev, af
 		}
 		time.Sleep(20 * time.Millisecond)
 	}()
+	parked := false
+	onPark := func(a *verifsched.Arrival) {
+		// the Synchronization run is inside its snapshot reads: change the cluster, let the informer
+		// cache (and buffer) the changes, then let the run go on
+		parked = true
+		bufferedNow := func() int {
+			n := 0
+			if hk0 := op.HookManager.GetHook("hook.sh"); hk0 != nil {
+				if mon := op.KubeEventsManager.GetMonitor(hk0.GetConfig().OnKubernetesEvents[0].Monitor.Metadata.MonitorId); mon != nil {
+					_, _, _, buffered := kem.VerifMonitorState(mon)
+					for _, b := range buffered {
+						n += b
+					}
+				}
+			}
+			return n
+		}
+		before, expect := bufferedNow(), 0
+		for _, e := range cfg.park.evs {
+			fires := false
+			for _, t := range cfg.types {
+				if t == e.kind {
+					fires = true
+				}
+			}
+			if cs, ok := truth[e.id]; e.kind == "m" && ok && cs == e.cs && cfg.jq {
+				fires = false // only a label changed, outside the jqFilter projection
+			}
+			if fires {
+				expect++
+			}
+		}
+		ok := apply(cfg.park.evs)
+		for deadline := time.Now().Add(5 * time.Second); ok && expect > 0 && time.Now().Before(deadline); time.Sleep(2 * time.Millisecond) {
+			if bufferedNow() >= before+expect {
+				break
+			}
+		}
+		time.Sleep(15 * time.Millisecond)
+		a.Release()
+	}
 	waitFile := func(name string) bool {
 		deadline := time.Now().Add(20 * time.Second)
 		for time.Now().Before(deadline) {
+			select {
+			case a := <-parkedCh:
+				onPark(a)
+			default:
+			}
 			if _, err := os.Stat(filepath.Join(logDir, name)); err == nil {
 				return true
 			}
@@ -276,6 +401,19 @@ func c01OpRun(c *Case, rng *Rng, cfg c01OpCfg, initial, duringSync [][]c01Ev, af
 		if !waitFile(fmt.Sprintf("ctx-%d.json", n)) {
 			c.Inconcl = fmt.Sprintf("execution %d did not start", n)
 			return
+		}
+		if c.Inconcl != "" {
+			return
+		}
+		if cfg.park != nil {
+			arm(cfg.park.attempt == n+1) // the next attempt begins as soon as this one is released
+			if cfg.park.attempt == n && !parked {
+				// the run never reached that yield point: the changes are ordinary changes during the run
+				c.Note("snapshot-window:not-reached")
+				if !apply(cfg.park.evs) {
+					return
+				}
+			}
 		}
 		if n-1 < len(duringSync) {
 			if !apply(duringSync[n-1]) {
@@ -309,6 +447,14 @@ func c01OpRun(c *Case, rng *Rng, cfg c01OpCfg, initial, duringSync [][]c01Ev, af
 	for _, t := range cfg.types {
 		if t == "a" {
 			sentinel = true
+		}
+	}
+	if cfg.quiet {
+		sentinel = false
+	}
+	if cfg.park != nil {
+		if parked {
+			c.Note(fmt.Sprintf("snapshot-window:parked-at-%d", cfg.park.k))
 		}
 	}
 	if sentinel && !apply([]c01Ev{{99, "a", 999}}) {
@@ -396,6 +542,21 @@ func c01OpRun(c *Case, rng *Rng, cfg c01OpCfg, initial, duringSync [][]c01Ev, af
 	}
 	// observations -> oracle lines
 	c.Op(fmt.Sprintf("cfg types=%s", joinStrs(cfg.types)), "ok")
+	if cfg.park != nil {
+		// correspondence with the model of UpdateSnapshots: the reads the Synchronization run made
+		parkMu.Lock()
+		n := readsInRun
+		parkMu.Unlock()
+		inc := "-"
+		if cfg.group != "" {
+			inc = "1" // a binding with a group includes itself
+		}
+		var reads []int
+		for i := 0; i < n; i++ {
+			reads = append(reads, 1)
+		}
+		c.Op("us 1:"+inc+":1", "reads="+joinInts(reads))
+	}
 	var runs []string
 	for _, e := range execs {
 		runs = append(runs, fmt.Sprintf("%s:%d", e.kinds, e.exit))
@@ -473,6 +634,67 @@ func c01GenClusterOps(rng *Rng, live map[int]int, next *int, n int) []c01Ev {
 		}
 	}
 	return w
+}
+
+// runC01OperatorWindow: the cluster changes inside the snapshot reads of the Synchronization run.
+// A small systematic sweep (group x empty/non-empty view x yield point) followed by random cases.
+func runC01OperatorWindow(r *Run) {
+	all := []string{"a", "m", "d"}
+	n := r.N(16+8, 16+120)
+	r.Cases(750000, n, 8, func(c *Case, rng *Rng) {
+		i := c.Idx - 750000
+		cfg := c01OpCfg{types: all, quiet: true}
+		live := map[int]int{}
+		next := 10
+		var initial [][]c01Ev
+		park := &c01SnapPark{attempt: 1}
+		if i < 16 {
+			if i&1 != 0 {
+				cfg.group = "g1"
+			}
+			nInit := 0
+			if i&2 != 0 {
+				nInit = rng.Range(1, 2)
+			}
+			initial = [][]c01Ev{c01GenClusterOps(rng, live, &next, nInit)}
+			park.k = i >> 2
+		} else {
+			if rng.Chance(50) {
+				cfg.group = "g1"
+			}
+			if rng.Chance(40) {
+				cfg.queue = "q1"
+			}
+			cfg.jq = rng.Chance(40)
+			cfg.quiet = rng.Chance(70)
+			cfg.failSync = []int{0, 0, 1}[rng.Intn(3)]
+			initial = [][]c01Ev{c01GenClusterOps(rng, live, &next, rng.Range(0, 2))}
+			park.attempt = rng.Range(1, cfg.failSync+1)
+			park.k = rng.Range(0, 3)
+		}
+		park.evs = c01GenClusterOps(rng, live, &next, rng.Range(1, 2))
+		cfg.park = park
+		var during [][]c01Ev
+		var after []c01Ev
+		for a := 0; a <= cfg.failSync; a++ {
+			k := 0
+			if !cfg.quiet {
+				k = rng.Range(0, 2)
+			}
+			during = append(during, c01GenClusterOps(rng, live, &next, k))
+		}
+		if !cfg.quiet {
+			after = c01GenClusterOps(rng, live, &next, rng.Range(0, 2))
+		}
+		c.Desc = fmt.Sprintf("operator, change inside the snapshot reads of Synchronization attempt %d (yield point %d): group=%q queue=%q jq=%v failSync=%d quiet=%v initial=%s inside=%s during=%v after=%s",
+			park.attempt, park.k, cfg.group, cfg.queue, cfg.jq, cfg.failSync, cfg.quiet, c01Evs(initial[0]), c01Evs(park.evs), during, c01Evs(after))
+		c01OpRun(c, rng, cfg, initial, during, after, r.Scratch)
+		c.Nontrivial = true
+		c.Note("operator-snapshot-window")
+		if cfg.group != "" {
+			c.Note("operator-snapshot-window:group")
+		}
+	})
 }
 
 func runC01Operator(r *Run) {
